@@ -87,12 +87,24 @@ def run(runobj, spec, timeout=10.0, only=None, verbose=False):
     reps = [(c, eng.verify(c, timeout=timeout)) for c in cs]
     eng.discharge_many([r for _, r in reps], timeout, jobs=int(os.environ.get("PYVC_JOBS", "15")))
     undecided_by_contract = {}
+    # specification-level lemmas (spec/lemma_stubs.py carriers) may cite other lemmas: a lemma whose cited lemma is not
+    # discharged in this run is only conditionally proved and is reported undecided
+    open_lemmas = {c.name for c, rep in reps if c.ghost.get("lemma") and (rep.out_of_subset or any(o.result.status != "unsat" for o in rep.obligations))}
+    present = {c.name for c, rep in reps}
     try:
         for c, rep in reps:
             ck = (c.key, c.inst)
             frec = {"qualname": c.name, "key": c.key, "sha256": rep.sha, "obligations": len(rep.obligations),
                     "discharged": 0, "paths": rep.paths, "out_of_subset": rep.out_of_subset,
                     "trivially_true": rep.trivial, "wall_s": round(rep.wall, 2), "calls_by_contract": rep.called}
+            if c.ghost.get("lemma"):
+                frec["kind"] = "lemma over contracts (no code: hypotheses are clauses of the cited contracts/lemmas)"
+                frec["cites"] = list(c.ghost.get("uses", []))
+                blocked = [u for u in c.ghost.get("uses", []) if u in open_lemmas or u not in present]
+                if blocked:
+                    for o in rep.obligations:
+                        if o.result.status == "unsat":
+                            o.result = smt.Result("unknown", "", o.result.time, "conditional", list(o.result.attempts) + [("depends-on", "undecided lemma " + ",".join(blocked[:3]), 0.0)], "")
             res["trivial"] += rep.trivial
             if rep.out_of_subset:
                 res["out_of_subset"].append({"function": c.name, "reason": rep.out_of_subset})
@@ -198,7 +210,7 @@ def run(runobj, spec, timeout=10.0, only=None, verbose=False):
     from checker import lemmas as L
     need = []
     for c, rep in reps:
-        for lem in getattr(c, "lemmas", []) or []:
+        for lem in list(getattr(c, "lemmas", []) or []) + list(getattr(rep, "lemma_instances", []) or []):
             if lem not in need:
                 need.append(lem)
                 if lem.startswith("RB") and "RB" not in need:
